@@ -412,7 +412,16 @@ func (c *Ctx) handlerSetRule() {
 							if !isIf {
 								continue
 							}
-							if ex1, isEx1 := iff.Cond.(*ssa.Extract); isEx1 && ex1.Tuple == ssa.Value(lk) && ex1.Index == 1 && edgeDominates(b2, 0, at.Block()) {
+							// the test may be written either way round (`if ok`, `case !ok:` evaluated into a value)
+							cond, okEdge := iff.Cond, 0
+							for {
+								u, isU := cond.(*ssa.UnOp)
+								if !isU || u.Op != token.NOT {
+									break
+								}
+								cond, okEdge = u.X, 1-okEdge
+							}
+							if ex1, isEx1 := cond.(*ssa.Extract); isEx1 && ex1.Tuple == ssa.Value(lk) && ex1.Index == 1 && edgeDominates(b2, okEdge, at.Block()) {
 								return true, ""
 							}
 						}
